@@ -12,7 +12,10 @@ the small independent tables below), and — for runs without imax/tmax — exit
 Correspondence: the binary's verification trace (mutated index, new base, score comparison, sequence and
 `bored` after every iteration) is replayed by the model (`ssm-replay`); the model must reproduce the
 constrained start, every intermediate sequence, `bored`, the step at which the loop stops and the final
-sequence; `ssm-params` must give the same Nfree and bmax; `ssm-check` must accept every generated triple."""
+sequence; `ssm-params` must give the same Nfree and bmax; `ssm-check` must accept every generated triple.
+Section [checked model]: the same traces go through the bounds-checked twin (`ssm-replay-checked`, PepperProps/C19Safe.lean),
+which must stay in range and agree with the total model; a small out-of-contract stream compares the twin's `oob` with the
+sanitizer build (evidence counts only)."""
 import json
 import os
 import sys
@@ -25,9 +28,15 @@ from core import Result
 
 LEVEL = "proof"
 LEVEL_NOTE = ("PARTIAL: theorems cover the constraint/search-loop model for every consistent triple, every stream of random "
-              "choices and every score function; memory safety / undefined behaviour of the C text and the floating-point "
-              "scoring code are not statements about the model — they are covered by sanitizer runs of the real binary and by "
-              "taking the score comparison as an input; tmax (wall clock) is not modelled")
+              "choices and every score function. Memory safety of the MODELLED part of the C text (constrain, "
+              "constrain_single_fast, mutate incl. the freeloc[k] lookup, test_consistency incl. its message reads, the nq/nbp "
+              "loops, the freeloc table, the oldS save/restore loops, main) is a theorem about the bounds-checked twin "
+              "PepperModel/SsmChecked.lean: C19Safe.no_oob_under_contract (no out-of-range access for any consistent triple, "
+              "start of length N, drawn indices k < Nfree, any comparison outcomes), C19Safe.checked_refines_total (an ok "
+              "result is the total model's), with array extents taken as the logical N cells and int overflow ignored; the "
+              "twin is replayed on every trace of the real binary. NOT a statement about any model: the loader, the "
+              "floating-point scoring code (about 600 lines), randbasec's table read, output — covered by sanitizer runs of "
+              "the real binary and by taking the score comparison as an input; tmax (wall clock) is not modelled")
 
 # independent statement of the code sets (IUPAC), not taken from the implementation
 SETS = {"A": "A", "C": "C", "G": "G", "T": "T", "R": "AG", "Y": "CT", "W": "AT", "S": "CG", "M": "AC", "K": "GT",
@@ -52,6 +61,10 @@ OPTION_SETS = [
     ("bmax5", ["bmax=5"]),
     ("bmult1-automatic", ["bmult=1", "score=automatic"]),
     ("spurious", ["score=spurious"]),
+    # the number of match lengths the spurious score looks at (documented option; its tables are sized by it)
+    ("range10-automatic-imax8", ["score=automatic", "spurious_range=10", "imax=8"]),
+    ("range9-spurious-imax8", ["score=spurious", "spurious_range=9", "imax=8"]),
+    ("range1-imax30", ["spurious_range=1", "imax=30"]),
 ]
 
 
@@ -289,7 +302,7 @@ def repro_cmd(case):
 def run_case(case, cap):
     t0 = time.time()
     r = ssm.run_ssm(case["st"], case["eq"], case["wc"], case["opts"], case["seed"], case["sanitize"],
-                    start=case.get("start"), timeout=cap)
+                    start=case.get("start"), timeout=cap, spelling=case.get("spelling", "int"))
     return r, time.time() - t0
 
 
@@ -348,6 +361,118 @@ def replay_request(case, tr, compact=True):
             "bmax": tr["params"][2], "imax": tr["params"][3], "compact": compact}
 
 
+# ---------------------------------------------------------------------------------------------
+# [checked model] — the bounds-checked twin (PepperModel/SsmChecked.lean, theorems PepperProps/C19Safe.lean)
+# ---------------------------------------------------------------------------------------------
+# (i)  every replayed trace of the real binary is also run through the checked model (`ssm-replay-checked`: constrainC,
+#      testConsistencyC, freelocC, stepC/runC with the freeloc[k] lookup and the oldS copy loops): it must not report an
+#      out-of-range access and must give the result of the total model — a difference is a correspondence break.
+# (ii) a small stream of OUT-OF-CONTRACT triples which the C loader accepts syntactically is given to the sanitizer build and
+#      to `ssm-program-checked`; "checked model says oob" against "sanitizer reports" is recorded as evidence counts only
+#      (the real arrays are allocated 100+ cells longer than N, so the sanitizer cannot see an access into that padding;
+#      a disagreement is neither a violation nor a correspondence break).
+
+CHECKED_KEYS = ("constrained", "stopped_at", "stopped", "final", "consistent", "digest")
+
+
+def checked_request(case, tr):
+    r = replay_request(case, tr)
+    r["op"] = "ssm-replay-checked"
+    return r
+
+
+def checked_compare(res, small, g_total, g_checked, nfree):
+    """g_total: answer of ssm-replay, g_checked: answer of ssm-replay-checked on the same request"""
+    res.disagreements_checked += 1
+    res.count("checked-replay")
+    okc = g_checked.get("ok") if isinstance(g_checked, dict) else None
+    okt = g_total.get("ok") if isinstance(g_total, dict) else None
+    if isinstance(okc, dict) and okc.get("oob") is not None:
+        res.count("checked-replay:oob")
+        res.corr_breaks.append({"name": "SsmChecked.replay:oob-on-consistent-triple", "input": small, "model": okc["oob"],
+                                "impl": "real run finished without a sanitizer report"})
+        return
+    if isinstance(okc, dict) and isinstance(okt, dict):
+        diff = {k: [okt.get(k), okc.get(k)] for k in CHECKED_KEYS if okt.get(k) != okc.get(k)}
+        if okc.get("nfree") != nfree:
+            diff["nfree"] = [nfree, okc.get("nfree")]
+        if okc.get("runC_agrees") is not True:
+            diff["runC_agrees"] = [True, okc.get("runC_agrees")]
+        if diff:
+            res.corr_breaks.append({"name": "SsmChecked.replay:differs-from-total-model", "input": small,
+                                    "model": diff, "impl": "[total model, checked model]"})
+    elif g_checked != g_total:      # both must reject the same way ({"err": …})
+        res.corr_breaks.append({"name": "SsmChecked.replay:differs-from-total-model", "input": small,
+                                "model": g_checked, "impl": g_total})
+
+
+def gen_malformed(rng):
+    """a consistent tiny triple, broken in one place; -> (kind, st, eq, wc, start)"""
+    while True:
+        st, eq, wc = gen_tiny(rng)
+        pos = [i for i in range(len(st)) if st[i] != " "]
+        if len(pos) >= 2:
+            break
+    n = len(st)
+    eq, wc = list(eq), list(wc)
+    kind = rng.choice(["control", "wc=N+1", "wc-huge", "eq=N+1", "eq-huge", "wc-in-range-wrong", "eq-in-range-wrong"])
+    i = rng.choice(pos)
+    if kind == "wc=N+1":
+        wc[i] = n + 1
+    elif kind == "wc-huge":
+        wc[i] = rng.choice([5000, 100000, 3000000])
+    elif kind == "eq=N+1":
+        eq[i] = n + 1
+    elif kind == "eq-huge":
+        eq[i] = rng.choice([5000, 100000, 3000000])
+    elif kind == "wc-in-range-wrong":
+        wc[i] = rng.choice([p for p in pos]) + 1
+    elif kind == "eq-in-range-wrong":
+        eq[i] = rng.choice([p for p in pos]) + 1
+    start = "".join(" " if c == " " else rng.choice("ACGT") for c in st)
+    return kind, st, eq, wc, start
+
+
+def malformed_section(res, drv, rng, n_cases):
+    t0 = time.time()
+    table = {}
+    reqs, metas = [], []
+    for _ in range(n_cases):
+        kind, st, eq, wc, start = gen_malformed(rng)
+        seed = rng.randrange(1, 1 << 40)
+        rc, out, err, lines, timed_out = ssm.run_ssm(st, eq, wc, ["imax=3", "quiet=TRUE"], seed, True, start=start, timeout=10.0)
+        san = ssm.sanitizer_report(err)
+        tr = ssm.parse_trace(lines)
+        reqs.append({"op": "ssm-program-checked", "st": st, "eq": eq, "wc": wc, "start": start, "imax": 3,
+                     "automatic": False, "events": [[i, b, c] for (i, b, c) in tr["events"]]})
+        metas.append((kind, san, rc, timed_out, out))
+    got = drv.call_many(reqs) if reqs else []
+    for (kind, san, rc, timed_out, out), rq, g in zip(metas, reqs, got):
+        okc = g.get("ok") if isinstance(g, dict) else None
+        if not isinstance(okc, dict):
+            res.count("malformed:model-error")
+            continue
+        oob = okc.get("oob") is not None
+        key = "malformed:%s:model-%s,sanitizer-%s" % (kind, "oob" if oob else "in-range", "report" if san else "silent")
+        res.count(key)
+        agree = "agree" if oob == san else ("model-oob-only" if oob else "sanitizer-only")
+        res.count("malformed-agreement:" + agree)
+        table[agree] = table.get(agree, 0) + 1
+        if kind == "control":
+            # the unbroken triple is inside the contract: T2 says the checked model cannot report oob, and the output of
+            # the real run must be the checked model's
+            res.disagreements_checked += 1
+            line = out.split("\n")[0] if out else None
+            if oob or san or okc.get("out") != line or okc.get("total") != line:
+                res.corr_breaks.append({"name": "SsmChecked.program:control", "input": {k: rq[k] for k in ("st", "eq", "wc", "start", "events")},
+                                        "model": okc, "impl": {"stdout": line, "sanitizer": san, "rc": rc}})
+    res.extra["malformed_stream"] = {"cases": n_cases, "agreement": table, "wall_s": round(time.time() - t0, 1),
+                                     "note": "evidence only: the sanitizer cannot see accesses into the 100+ cells of allocated padding"}
+# ---------------------------------------------------------------------------------------------
+# end of [checked model]
+# ---------------------------------------------------------------------------------------------
+
+
 def correspond(res, drv, batch):
     """batch: list of (case, trace, stdout)"""
     reqs = []
@@ -357,6 +482,7 @@ def correspond(res, drv, batch):
         reqs.append(dict(op="ssm-params", **t, **model_opts(case["opts"])))
         if tr and tr["complete"] and tr["params"]:
             reqs.append(replay_request(case, tr))
+            reqs.append(checked_request(case, tr))          # [checked model] (i)
     got = drv.call_many(reqs)
     gi = iter(got)
     for case, tr, out in batch:
@@ -396,6 +522,7 @@ def correspond(res, drv, batch):
                                                           "model": [ms[idx], mb[idx]] if idx < len(ms) else "model stopped"}
                             break
                 res.corr_breaks.append(dict({"name": "Ssm.replay", "input": small}, **detail))
+            checked_compare(res, small, g, next(gi), tr["params"][1])      # [checked model] (i)
 
 
 def run(st, tier, seed):
@@ -424,6 +551,13 @@ def run(st, tier, seed):
                 "sanitize": (not quick) or (i % 3 == 0)}
         if rng.random() < 0.25:
             case["start"] = gen_start(rng, *t)
+        if rng.random() < 0.15:
+            # the same triple with its numbers spelled as other tools write them (`17.0`, `1.7000000e+01`, padded): the loader reads
+            # them with %lf, so these are the same consistent triple
+            case["spelling"] = rng.choice(["point", "exp", "wide"])
+            res.count("number-spelling:" + case["spelling"])
+        if "spurious_range" in " ".join(opts) and int(" ".join(opts).split("spurious_range=")[1].split()[0]) >= 9:
+            case["sanitize"] = True
         if t[0][0] == " " or "   " in t[0] or len(t[0]) <= 2:
             case["sanitize"] = True        # edge layouts (opening separator, triple separator, N <= 2) always run under the sanitizers
             res.count("edge-layout")
@@ -490,6 +624,8 @@ def run(st, tier, seed):
             if len(res.corr_breaks) > 5:
                 break
     res.extra["binary_runs_wall_s"] = round(time.time() - t_runs, 1)
+    if drv:
+        malformed_section(res, drv, rng, 14 if quick else 120)      # [checked model] (ii)
     return res
 
 
